@@ -580,6 +580,13 @@ Plan generate_plan(const std::string& profile_in, uint64_t seed, uint64_t index)
             p.steps.insert(p.steps.begin() + (long)pos, mk("reload", r, 1, 1));
         }
     }
+    if (disk && p.cfg.schema >= 11 && r.chance(1, 4) &&
+        (profile == "crates" || profile == "members" || profile == "mixed" || profile == "cross" || profile == "table"))
+    {
+        // a 2.x library whose id counters are far along (second party): ids at the edges of int32 / double precision
+        size_t pos = r.below(std::min<size_t>(3, p.steps.size()) + 1);
+        p.steps.insert(p.steps.begin() + (long)pos, mk("f_seq", r, 2, 1));
+    }
     if (pure)
         p.cfg.checks |= CK_PURITY;
     p.cfg.twice = twice;
